@@ -54,6 +54,7 @@ def main():
     ap.add_argument('--record', action='store_true', help='write expected/ files from a green run')
     ap.add_argument('--jobs', type=int, default=int(os.environ.get('VERIF_JOBS', '16')))
     ap.add_argument('--keep', action='store_true')
+    ap.add_argument('--no-evidence', action='store_true', help='do not rewrite evidence/<id>.json (seeded-change runs)')
     a = ap.parse_args()
     prop = a.prop
     seed = int(os.environ.get('VERIF_SEED', '0') or 0)
@@ -215,7 +216,7 @@ def main():
     wall = time.time() - t0
     level_proof = proved_obl > 0
     ev = {
-        'property_id': prop, 'tier': a.tier, 'seed': seed, 'level': 'proof',
+        'property_id': prop, 'tier': a.tier, 'seed': seed, 'level': 'proof' if proved_obl > 0 else 'other',
         'coverage': {
             'obligations': proved_obl, 'discharged': proved_dis,
             'checker_cmd': 'goto-cc <flags> --function h_<fn> proofs/<tu>.c; goto-instrument --unwindset <contract-less loops> --unwinding-assertions; '
@@ -229,13 +230,14 @@ def main():
             'samples': samples,
             'undecided': undecided,
             'known_findings_matched': known_hits,
-            'explanation': meta.get('explanation', ''),
+            'explanation': meta.get('explanation') or ('contract-based deductive verification with CBMC: %d obligations in unbounded/finite-complete groups (classes P/F), '
+                            '%d in bounded stand-in groups (class B, never counted as proved)' % (proved_obl, bounded_obl)),
         },
         'assumptions': sorted(assumptions) + meta.get('assumptions', []),
         'wall_s': round(wall, 1),
         'violations': len(vio_lines),
     }
-    if not a.group:
+    if not a.group and not a.no_evidence:
         os.makedirs(os.path.join(HERE, 'evidence'), exist_ok=True)
         json.dump(ev, open(os.path.join(HERE, 'evidence', prop + '.json'), 'w'), indent=1)
     for k in known_hits:
